@@ -60,6 +60,17 @@ CLAIMED["C15"] = dict(
          "translator, extraction + driver, harness doors verif::socks",
     design="DESIGN.md 5 C15")
 
+CLAIMED["C05"] = dict(
+    text="Coq theorem: for every configuration, ALPN list and SNI the model of TlsDemux::select equals 'host entry the SNI designates "
+         "(exact name of any class, else <credentials>.<main host>, else alternative SNI)' x 'most preferred protocol offered and "
+         "permitted (and, on the tunnel channel, enabled), HTTP/1.1 only without ALPN'; exact names designate their own entry under the "
+         "uniqueness validate enforces; unknown/no SNI and HTTP/3 on TCP are refused; reload switches only on success (regenerated "
+         "facts of core.rs); tied by a differential run of the real TlsDemux (settings + certificate files) and of "
+         "Core::reload_tls_hosts_settings histories against the extracted model and an independent oracle; one known finding",
+    note="trusted: Coq kernel, Model/TlsDemux.v, Spec/SniRouting.v, translator facts (DemuxFacts.v), extraction + driver, harness doors "
+         "verif::demux; RwLock linearisation and certificate loading are environment; QUIC double select not driven",
+    design="DESIGN.md 5 C05")
+
 PENDING_REASON = "check under construction in this round (designed in DESIGN.md, not yet wired into ./check)"
 
 
